@@ -301,7 +301,10 @@ def coq_check(c, obs):
         if wcur is None: continue
         D = cbits(data); op = st['op']
         res = ('ok', after[2]) if r[0] == 'ok' else ('err', r[1])
-        if op == 'delitem': terms.append(f"rbits_eqb (arr_delitem {wcur} {D} {cz(st['i'])}) {cres(res, cbits)}")
+        if op == 'getslice':
+            if r[0] == 'ok': terms.append(f"rbits_eqb (arr_getslice {wcur} {D} {cslice(*st['k'])}) (Ok {cbits(r[1][0][2])})")
+            elif r[1] == 'ValueError': terms.append(f"rbits_eqb (arr_getslice {wcur} {D} {cslice(*st['k'])}) (Err ValueError)")
+        elif op == 'delitem': terms.append(f"rbits_eqb (arr_delitem {wcur} {D} {cz(st['i'])}) {cres(res, cbits)}")
         elif op == 'setitem' and r[0] == 'ok':
             k = st['i'] + n if st['i'] < 0 else st['i']
             e = after[2][k * wcur:(k + 1) * wcur]
